@@ -8,50 +8,30 @@ import (
 	"github.com/tetratelabs/wazero/verifharness/wenc"
 )
 
-func run(name string, bin []byte) {
+func main() {
 	for _, comp := range []bool{false, true} {
 		ctx := context.Background()
-		rc := wazero.NewRuntimeConfigInterpreter()
-		if comp {
-			rc = wazero.NewRuntimeConfigCompiler()
+		cache := wazero.NewCompilationCache()
+		mk := func() wazero.Runtime {
+			rc := wazero.NewRuntimeConfigInterpreter()
+			if comp {
+				rc = wazero.NewRuntimeConfigCompiler()
+			}
+			return wazero.NewRuntimeWithConfig(ctx, rc.WithCompilationCache(cache))
 		}
-		rt := wazero.NewRuntimeWithConfig(ctx, rc)
-		mod, err := rt.Instantiate(ctx, bin)
-		if err != nil {
-			fmt.Println(name, comp, "inst err", err)
-			continue
-		}
-		res, err := mod.ExportedFunction("f").Call(ctx, 29)
-		b, _ := mod.Memory().Read(32, 16)
-		fmt.Printf("%s compiler=%v res=%x err=%v mem=%x\n", name, comp, res, err, b)
-		rt.Close(ctx)
-	}
-}
-
-func main() {
-	V := wenc.V128
-	for variant := 0; variant < 4; variant++ {
 		m := &wenc.Module{}
-		m.Mems = []wenc.Limits{{Min: 1}}
-		m.Exports = append(m.Exports, wenc.Export{Name: "memory", Kind: wenc.ExtMemory})
-		m.Globals = []wenc.Global{{Type: wenc.GlobalType{Type: V}, Init: wenc.ConstV128(0x1111222233334444, 0x5555666677778888)}}
-		c := &wenc.Code{}
-		c.LocalGet(0).I32Const(0x7fff).Op(0x71)
-		if variant == 1 {
-			c.I32Const(0)
-		} else {
-			c.F64Const(0x8000000000000000).Op(0xfc, 2)
+		m.ExportFunc("f", m.AddFunc(nil, []wenc.ValType{wenc.I32}, nil, (&wenc.Code{}).I32Const(42).End().B))
+		bin := m.Encode()
+		rA, rB := mk(), mk()
+		cmB, err := rB.CompileModule(ctx, bin)
+		fmt.Println("B compile", err)
+		cmA, err := rA.CompileModule(ctx, bin)
+		fmt.Println("A compile", err)
+		cmA.Close(ctx)
+		modB, err := rB.InstantiateModule(ctx, cmB, wazero.NewModuleConfig())
+		fmt.Println("compiler", comp, "B instantiate:", err)
+		if err == nil {
+			fmt.Println(modB.ExportedFunction("f").Call(ctx))
 		}
-		c.If(V).LocalGet(1).Else().LocalGet(1).GlobalGet(0).LocalGet(3).Select().End()
-		if variant == 2 {
-			c.Raw([]byte{0xfd, 0x0b}).U32(0).U32(3)
-		} else if variant == 3 {
-			c.Raw([]byte{0xfd, 0x59}).U32(1).U32(3).Op(1)
-		} else {
-			c.Raw([]byte{0xfd, 0x59}).U32(1).U32(3).Op(0)
-		}
-		c.End()
-		m.ExportFunc("f", m.AddFunc([]wenc.ValType{wenc.I32}, nil, []wenc.ValType{V, wenc.I32, wenc.I32}, c.B))
-		run(fmt.Sprint("variant", variant), m.Encode())
 	}
 }
